@@ -364,6 +364,7 @@ def run_check(prop, tier, seed):
     rdir = os.path.join(outdir, "replays", prop)
     seen_classes = set()
     also_seen = []
+    flaky_crashes = []
     for v in violations:
         viol, sc = v["violation"], v["scenario"]
         key = (viol["class"], sc["world"], viol.get("op_kind"))
@@ -391,6 +392,14 @@ def run_check(prop, tier, seed):
                 reported.append((viol, path))
             continue
         cls0, viol0, owned0 = rp.run(sc)
+        if cls0 is None and viol["class"].startswith("crash/"):
+            # a worker died, but the reconstructed scenario does not crash in a fresh process: a tree that reads
+            # memory it does not own behaves differently depending on what the worker's heap held. Not reportable
+            # as a replayable violation; the other violations of the batch are, and if there are none the check
+            # ends undecided (exit 2), never as a pass.
+            flaky_crashes.append("%s of run %s" % (viol["class"], v["seed_index"]))
+            seen_classes.discard(key)
+            continue
         if cls0 is None:
             harness_error("violation %s of run %s did not reproduce on replay (nondeterminism in the harness)" % (viol["class"], v["seed_index"]))
         small = mini.minimise(rp, sc, cls0, budget=int(os.environ.get("HBSIM_MIN_BUDGET", "600")) if v["variant"] != "E" else 12)
@@ -473,8 +482,12 @@ def run_check(prop, tier, seed):
         log("VIOLATION property=%s replay=%s" % (prop, path))
     for a in also_seen:
         log("also seen (not minimised): " + a)
+    for fc_ in flaky_crashes:
+        log("worker crash that did not reproduce in a fresh process: " + fc_)
     if reported:
         return 1
+    if flaky_crashes:
+        harness_error("undecided: %d worker crash(es) did not reproduce on replay and no replayable violation was found (%s)" % (len(flaky_crashes), flaky_crashes[0]))
     if not det_ok:
         harness_error("determinism self-check failed and no violation was found: " + det_msg)
     if missing:
